@@ -20,5 +20,6 @@ CONSTANTS
   NilForGone = TRUE
   Validate = TRUE
   BumpOnRemove = FALSE
+  BumpOnEntry = TRUE
 VIEW View
 INVARIANTS NoError StructureOK
